@@ -193,7 +193,7 @@ fn run_job(ctx: &mut Context, job: &Value) -> Value {
             Ok(r) => serde_json::to_value(r).map(|v| v.to_string().len()),
             Err(e) => serde_json::to_value(e).map(|v| v.to_string().len()),
         };
-        out["render"] = json!({"plain_len": plain.len(), "spans": spans, "json_ok": js.is_ok()});
+        out["render"] = json!({"plain_len": plain.len(), "spans": spans, "json_ok": js.is_ok(), "plain": text(&plain)});
     }
     if job["dateval"].as_bool().unwrap_or(false) {
         // C14: when the query is a plain expression whose value is a date, the value itself (not only the
